@@ -248,7 +248,12 @@ class Recorder:
         self.dist[kind + ":VIOLATION"] += 1
         v = {"kind": kind, "case": _jsonable(case), "impl": _jsonable(impl),
              "expected": _jsonable(expected), "note": note, "finding": finding}
-        if len(self.violations) < 200:
+        # keep at most 20 per (kind, finding) so that one noisy kind (or tagged known-finding
+        # cases) cannot crowd out a different violation
+        k = (kind, finding)
+        self._vcount = getattr(self, "_vcount", Counter())
+        self._vcount[k] += 1
+        if self._vcount[k] <= 20 and len(self.violations) < 2000:
             self.violations.append(v)
 
     def disagreement(self, kind, case, impl, model, note=""):
